@@ -43,6 +43,24 @@ type runner struct {
 	lastCtx string
 	thorough bool
 	sweepHi int
+	// one FrameParser per flag combination serves the whole case, as one serves a whole connection
+	parsers map[string]*wire.FrameParser
+}
+
+func (rn *runner) parser(flags string) *wire.FrameParser {
+	for len(flags) < 3 {
+		flags += "0"
+	}
+	flags = flags[:3]
+	if rn.parsers == nil {
+		rn.parsers = map[string]*wire.FrameParser{}
+	}
+	p := rn.parsers[flags]
+	if p == nil {
+		p = wire.NewFrameParser(flags[0] == '1', flags[1] == '1', flags[2] == '1')
+		rn.parsers[flags] = p
+	}
+	return p
 }
 
 func newRunner(r *vh.Rand) vh.Runner {
@@ -379,11 +397,8 @@ func lvlOf(s string) protocol.EncryptionLevel {
 }
 
 // decodeOne mirrors connection.handleFrames for a single frame.
-func decodeOne(lvl, flags, exp string, data []byte) (wire.Frame, int, string) {
-	for len(flags) < 3 {
-		flags += "0"
-	}
-	p := wire.NewFrameParser(flags[0] == '1', flags[1] == '1', flags[2] == '1')
+func (rn *runner) decodeOne(lvl, flags, exp string, data []byte) (wire.Frame, int, string) {
+	p := rn.parser(flags)
 	p.SetAckDelayExponent(uint8(u64(exp)))
 	encLevel := lvlOf(lvl)
 	errText := func(err error) string {
@@ -417,7 +432,10 @@ func decodeOne(lvl, flags, exp string, data []byte) (wire.Frame, int, string) {
 		var af *wire.AckFrame
 		af, n, err = p.ParseAckFrame(frameType, rest, encLevel, protocol.Version1)
 		if err == nil {
-			f = af
+			// the parser owns and reuses this frame: keep a copy
+			cp := *af
+			cp.AckRanges = append([]wire.AckRange(nil), af.AckRanges...)
+			f = &cp
 		}
 	case frameType.IsDatagramFrameType():
 		var df *wire.DatagramFrame
@@ -693,7 +711,7 @@ func (rn *runner) Exec(op string) string {
 		return res
 	case "dec":
 		data := unhx(arg(4))
-		f, n, e := decodeOne(arg(1), arg(2), arg(3), data)
+		f, n, e := rn.decodeOne(arg(1), arg(2), arg(3), data)
 		if e != "" {
 			rn.last = nil
 			return e
@@ -732,7 +750,7 @@ func (rn *runner) Exec(op string) string {
 						s = "PANIC"
 					}
 				}()
-				f, n, e := decodeOne(arg(1), arg(2), arg(3), data)
+				f, n, e := rn.decodeOne(arg(1), arg(2), arg(3), data)
 				if e != "" {
 					return strings.ReplaceAll(e, " ", ",")
 				}
@@ -1033,7 +1051,7 @@ func (rn *runner) summ(kind string, args []string, data []byte) (res string) {
 		if len(args) < 3 {
 			return "skip"
 		}
-		f, n, e := decodeOne(args[0], args[1], args[2], data)
+		f, n, e := rn.decodeOne(args[0], args[1], args[2], data)
 		if e != "" {
 			return strings.ReplaceAll(e, " ", ",")
 		}
